@@ -230,6 +230,10 @@ func c15Run(c *Ctx, idx int) {
 		c15Foreign(c, id)
 		return
 	}
+	if id%200 == 57 {
+		c15HostileKeys(c, id/200)
+		return
+	}
 	text, doc := c15Case(c, id)
 	m := ref.Search(text, doc)
 	enum := Enumerates(text)
@@ -387,4 +391,59 @@ func init() {
 		return 4
 	}
 	offline["C15"] = c15Offline
+}
+
+// c15HostileKeys: objects whose keys are not well-formed UTF-8 (a Go map can hold them; JSON text
+// cannot), several of which become the same text once each bad byte is replaced by U+FFFD.  Whatever
+// an implementation does with such keys - and to_string's text for them is not pinned - it must do
+// the same thing on every call: an order decided by comparing the *replaced* keys is a tie that map
+// iteration breaks differently from call to call.
+func c15HostileKeys(c *Ctx, id int) {
+	r := c.Rand(fmt.Sprint("hk", c.Batch))
+	groups := [][]string{{"\xff", "\xfe"}, {"id\x80", "id\xc3"}, {"a\xffb", "a\xfeb", "a\x80b"}, {"\xc3\x28", "\xa0\x28"}, {"\xe2\x82", "\xe2\x83", "\xf0\x9f"}, {"k\xed\xa0\x80", "k\xed\xa0\x81"}, {"\xff", "\xfe", "�", "é"}}
+	g := groups[id%len(groups)]
+	mk := func() any {
+		m := map[string]any{}
+		ks := append([]string{}, g...)
+		ks = append(ks, "plain")
+		gen.Shuffle(r, ks)
+		for i, k := range ks {
+			m[k] = json.Number(fmt.Sprint(len(k)*10 + i%1))
+		}
+		recs := []any{}
+		for _, k := range g {
+			recs = append(recs, map[string]any{"k": k, "v": k + "!"})
+		}
+		return map[string]any{"o": m, "recs": recs, "list": []any{m, m}}
+	}
+	for _, text := range []string{"to_string(o)", "to_string(@) | length(@)", "to_string(group_by(recs, &k))", "to_string(list)", "to_string(from_items(recs[*].[k, v]))", "to_string(merge(o, {z: `1`}))", "to_string(o) == to_string(o)", "[to_string(o), to_string(o)] | @[0] == @[1]", "to_string(items(o) | sort_by(@, &to_string(@[1])))", "to_string({a: o})"} {
+		seen := map[string]int{}
+		for k := 0; k < 40; k++ {
+			var l LibOut
+			if k%2 == 0 {
+				l = c.LibSearch(text, mk())
+			} else if e, lc := c.LibCompile(text); lc.Err == nil && lc.Panic == nil {
+				l = c.LibExprSearch(e, text, mk())
+			} else {
+				l = lc
+			}
+			d := "panic"
+			if l.Panic == nil {
+				d = ShowOut(l)
+				if l.Err == nil {
+					d = fmt.Sprintf("%q", fmt.Sprint(l.Res))
+				}
+			}
+			seen[d]++
+		}
+		if len(seen) > 1 {
+			var alts []string
+			for d, n := range seen {
+				alts = append(alts, fmt.Sprintf("%dx %s", n, clipS(d, 200)))
+			}
+			sort.Strings(alts)
+			c.Report(Violation{Rule: "C15/varies-within-process", Expr: text, Data: fmt.Sprintf("an object with the keys %q and \"plain\"", g), Got: strings.Join(alts, "  |  "), Want: "one outcome on 40 calls over equal documents", Features: map[string]string{"stream": "hostile-keys"}})
+		}
+	}
+	c.Nontrivial("hostile-keys", fmt.Sprint(id))
 }
